@@ -4,6 +4,7 @@ C16 — '?' axes are per-leaf-position axes of exactly one structured PyTree.
 import JaxVerif.Spec.Trees
 import JaxVerif.Generated.Skeleton
 import JaxVerif.Lemmas.Treepath
+import JaxVerif.Source.Trees
 
 namespace JV
 
@@ -74,5 +75,15 @@ theorem C16_facts_matter :
     (checkL { good with treepathGuarded := false } ann (.tuple [a3, a3]) { noCtx := false }).2 = .ANN ∧
     (checkL { good with flattenRestores := false } ann (.tuple [a3]) { noCtx := false }).2 = .ANN := by
   decide +kernel
+
+/-- **the `?`-leaf label, as set and cleared today**: in the translated `_check` the label is set per leaf only by a PyTree
+    with a structure name (an AnnotationError if one is already set), cleared after each accepted leaf and in the
+    `finally` of the loop by that PyTree only — the model's `leafLoop` with the guard — for every value, leaf check,
+    structure string and state. -/
+theorem C16_source_label (env : TEnv) (ac : Catch) (hf : FlattenKept env.leafCheck) (st : CState) :
+    runInstancecheck env Generated.instancecheckCode Generated.checkCode st =
+      some (if env.bare then (st, .T)
+            else pytreeInstancecheck (goodSkel ac) env.leafCheck env.leafAny env.S env.x st) :=
+  source_tree_instancecheck env ac hf st
 
 end JV
